@@ -304,6 +304,7 @@ def get_attr(interp, o, attr, st, node):
                 for c in sh: r = r * c
                 return r
         if attr == "ndim": return X.const(o.ndim if not isinstance(o, LocalArr) else len(o.shape))
+        if attr == "flat" and (o.ndim if not isinstance(o, LocalArr) else len(o.shape)) == 1: return o
         if attr == "T":
             if isinstance(o, LocalArr):
                 A_ = local_to_arr(o)
